@@ -4,6 +4,7 @@ CONSTANTS
   MaxLen = 2
   MaxOps = 1000
   Universe = "adv"
+  Deep = FALSE
   Snaps = FALSE
   BType = "rlp"
   BRawId = ""
